@@ -93,3 +93,35 @@ Theorem C09_substring_never_fails : forall D has_ns hcode rm rn rr a b x c va st
             is_substring r (str_or_first D va).
 Proof. exact eval_substring_never_fails. Qed.
 Print Assumptions C09_substring_never_fails.
+
+(* ---- the float front-end of substring() (Proofs/SubstringFloat.v) ----
+   [R x] = floor(x + 0.5) computed in double arithmetic (XPath's round as the engine
+   computes it); [small_finite x]: x is a canonical finite double with |x| < 2^51. *)
+From XP.Proofs Require Import SubstringFloat.
+
+(* substring(s, start, length), finite arguments: exactly the characters at the
+   positions p with round(start) <= p < round(start) + round(length) *)
+Theorem C09_substring_positions : forall m start len,
+  small_finite start -> small_finite len -> (Z.of_nat (String.length m) < 2 ^ 52)%Z ->
+  substring_go m start (Some len) = substring_pos m (R start) (R start + R len).
+Proof. exact substring_go_finite. Qed.
+Print Assumptions C09_substring_positions.
+
+Theorem C09_substring2_positions : forall m start,
+  small_finite start -> (Z.of_nat (String.length m) < 2 ^ 53)%Z ->
+  substring_go m start None = filter_pos (fun p => (R start <=? p)%Z) 1 m.
+Proof. exact substring_go2_finite. Qed.
+Print Assumptions C09_substring2_positions.
+
+(* the one place where floor(x + 0.5) in double arithmetic is not the exact
+   round-half-up: x = 0.49999999999999994 (the predecessor of 0.5) rounds to 1.
+   Recorded as an observation: XPath itself defines round() through floor(x+0.5)
+   on doubles only informally; the engine's reading is the IEEE one. *)
+Theorem C09_round_at_pred_half :
+  valid_binary prec emax f_pred_half = true /\
+  xpath_number_string f_pred_half = "0.49999999999999994"%string /\
+  flt f_pred_half fhalf = true /\ R f_pred_half = 1%Z /\ xround f_pred_half = of_Z 1 /\
+  substring_go "12345" f_pred_half (Some (of_Z 1)) = "1"%string /\
+  substring_pos "12345" 0 (0 + 1) = ""%string.
+Proof. exact xround_pred_half. Qed.
+Print Assumptions C09_round_at_pred_half.
